@@ -85,8 +85,8 @@ func solveOne(o *Obligation, dir string, idx int, timeoutS int, all bool) *Solve
 		}
 		return &SolveResult{Status: "unsat", Solver: "simplifier"}
 	}
-	if o.Cover && timeoutS > 2 {
-		timeoutS = 2 // a cover only has to fail to be refuted quickly
+	if o.Cover && timeoutS > 1 {
+		timeoutS = 1 // a cover only has to fail to be refuted quickly
 		all = false
 	}
 	file := filepath.Join(dir, fmt.Sprintf("o%05d.smt2", idx))
